@@ -1,8 +1,11 @@
 package h
 
 import (
+	"encoding/json"
 	"fmt"
+	"github.com/sirupsen/logrus"
 	"os"
+	"pegsim/sim"
 	"strconv"
 	"testing"
 
@@ -203,4 +206,60 @@ func TestDbgPegAtPricing(t *testing.T) {
 		}
 	}
 	fmt.Fprintf(os.Stderr, "%s: %d of %d worlds cross PEGPricing; block rated in %d; PEG rate non-zero in %d\n", os.Getenv("P"), in, n, rated, nz)
+}
+
+func TestDbgReplayDump(t *testing.T) {
+	b, _ := os.ReadFile(os.Getenv("F"))
+	var sc Scenario
+	json.Unmarshal(b, &sc)
+	w, err := buildWorld(&sc)
+	if err != nil {
+		t.Fatal(err)
+	}
+	sim.ApplyConfig(sc.Spec.Config)
+	work, _ := os.MkdirTemp("/dev/shm", "dbg")
+	defer os.RemoveAll(work)
+	env := &Env{T: t, Stats: NewStats(), Work: work}
+	env.Bubble(func() {
+		r := sim.NewReplica(w, env.Dir("d"))
+		r.Follow = true
+		if os.Getenv("TRACE") != "" {
+			logrus.SetOutput(os.Stderr)
+			logrus.SetLevel(logrus.TraceLevel)
+		}
+		if err := r.Start(); err != nil {
+			t.Fatal(err)
+		}
+		r.RunTo(w.Tip())
+		fmt.Fprintln(os.Stderr, "errors:", sim.TakeErrors())
+		db := r.RO()
+		for _, q := range []string{"SELECT height, COUNT(*) FROM pn_rate GROUP BY height", "SELECT hex(entry_hash), height, executed FROM pn_history_txbatch", "SELECT hex(entry_hash), height FROM pn_transaction_batch_holding", "SELECT * FROM pn_metadata"} {
+			rows, err := db.Query(q)
+			if err != nil {
+				fmt.Fprintln(os.Stderr, q, err)
+				continue
+			}
+			cols, _ := rows.Columns()
+			for rows.Next() {
+				vals := make([]interface{}, len(cols))
+				ptr := make([]interface{}, len(cols))
+				for i := range vals {
+					ptr[i] = &vals[i]
+				}
+				rows.Scan(ptr...)
+				s := ""
+				for _, v := range vals {
+					if bb, ok := v.([]byte); ok {
+						s += fmt.Sprintf("%.24s ", string(bb))
+					} else {
+						s += fmt.Sprintf("%v ", v)
+					}
+				}
+				fmt.Fprintln(os.Stderr, "  ", q[:30], "|", s)
+			}
+			rows.Close()
+		}
+		fmt.Fprintln(os.Stderr, "errors:", sim.TakeErrors())
+		r.Stop()
+	})
 }
